@@ -275,3 +275,12 @@ contract("_controls:PagedResultControl.get_value", params={"options": "const:" +
          ensures=["result == e", "tlv_of(e, 0, True, 16, e_size + e_cookie)",
                   "tlv_of(e_size, 0, False, 2, c_size)", "len(c_size) >= 1", "tc(c_size) == self.size", "minimal_tc(c_size)",
                   "tlv_of(e_cookie, 0, False, 4, self.cookie)"])
+
+# ---- round trips (C01): the decoder's postcondition applied to the octets the encoder's postcondition describes
+_XR = "cat(e_name, ite(has_value, e_value, empty()))"
+contract("specs.ldapmsg:lemma_rt_extended_request",
+         requires=["tlv_of(e_name, 2, False, 0, name_b)", "implies(has_value, tlv_of(e_value, 2, False, 1, value))"],
+         ensures=["id_class(%s) == 2" % _XR, "id_number(%s) == 0" % _XR, "not id_constructed(%s)" % _XR,
+                  "content_of(%s) == name_b" % _XR,
+                  "opt_none(rest_of(%s), 1, True) == (not has_value)" % _XR,
+                  "implies(has_value, opt_val(rest_of(%s), 1, empty()) == value)" % _XR])
